@@ -1,6 +1,7 @@
 import Driver.Util
 import Driver.Geom
 import Resvg.Geom.BBox
+import Resvg.Convert.Bbox
 namespace Driver
 open Resvg Resvg.Geom
 
@@ -40,6 +41,26 @@ def handleBBox (op : String) (args : List String) : String :=
     match parseTsCsv? root, allSome (chain.map parseTsCsv?) with
     | some r, some ch => showTs (absTransform r ch)
     | _, _ => "bad-op"
+  | "obbgrad", [t, b] =>
+    match parseTsCsv? t, parseLtrb? b with
+    | some t, some b => showTs (Resvg.Convert.gradientToUser t b)
+    | _, _ => "bad-op"
+  | "obbclip", [t, b] =>
+    match parseTsCsv? t, parseLtrb? b with
+    | some t, some b => showTs (Resvg.Convert.clipToUser t b)
+    | _, _ => "bad-op"
+  | "obbrect", [x, y, w, h, b] =>
+    match parseHw? x, parseHw? y, parseHw? w, parseHw? h, parseLtrb? b with
+    | some x, some y, some w, some h, some b =>
+      -- the fractional rectangle is itself a stored `NonZeroRect` (left/top/right/bottom)
+      let src := LTRB.fromXywh x y w h
+      let r := Resvg.Convert.rectToUser src.x src.y src.width src.height b
+      let z (f : Float32) : String := if f == 0 then "00000000" else showHw f
+      -- the result is stored as left/top/right/bottom (`NonZeroRect::from_xywh`); the accessors give
+      -- `width() = right - left`
+      let st := LTRB.fromXywh r.1 r.2.1 r.2.2.1 r.2.2.2
+      s!"{z st.x} {z st.y} {z st.width} {z st.height}"
+    | _, _, _, _, _ => "bad-op"
   | _, _ => "bad-op"
 
 end Driver
